@@ -7,7 +7,7 @@ BIND = {}
 
 # ---------------------------------------------------------------- integrality guard
 contract(
-    "pdb2pqr.utilities:noninteger_charge", "C02",
+    "pdb2pqr.utilities:noninteger_charge", ["C02", "C12"],
     params={"charge": Real},
     requires=[],
     ensures=[
